@@ -251,3 +251,16 @@ package jsonapi
 //@ assert after append#0 res-soft: urSoft(res#1) && hasType(schema, asSoft(res#1).Type.Name)
 //@ assert after append#0 res-typed-attrs: forall f string :: f in asSoft(res#1).Type.Attrs && f in asSoft(res#1).data ==> valTyped(asSoft(res#1).data[f], asSoft(res#1).Type.Attrs[f])
 //@ assert after append#0 res-typed-rels: forall f string :: f in asSoft(res#1).Type.Rels && f in asSoft(res#1).data ==> relTyped(asSoft(res#1).data[f], asSoft(res#1).Type.Rels[f])
+
+// Building a request: the body goes through UnmarshalDocument, the URL through
+// NewSimpleURL/NewURL. Domain: a server-side *http.Request (non-nil, with a
+// body reader); ioutil.ReadAll is an arbitrary allocation-only producer of bytes.
+//@ func NewRequest
+//@ flag post-per-return
+//@ props C05
+//@ requires req: r != nil
+//@ requires schema: schema != nil && allTypesWf(schema) && noIDField(schema) && softSchema(schema) && targetsExist(schema)
+//@ modifies all
+//@ ensures error-xor-result: (result1 != nil) == (result0 == nil)
+//@ ensures doc-data: result1 == nil && result0.Doc != nil ==> result0.Doc.Data == nil || urOK(result0.Doc.Data, schema) || colOK(result0.Doc.Data, schema)
+//@ ensures doc-included: result1 == nil && result0.Doc != nil ==> (forall k int :: 0 <= k && k < len(result0.Doc.Included) ==> urOK(result0.Doc.Included[k], schema))
